@@ -45,6 +45,11 @@ func (rs *requestStream) Read(p []byte) (int, error) {
 		err error
 	)
 	if rs.header.ContentLength() == -1 {
+		if rs.chunkedDone {
+			// The body has been read to its end: whatever follows in the
+			// connection belongs to the next request.
+			return 0, io.EOF
+		}
 		if rs.chunkLeft == 0 {
 			chunkSize, err := parseChunkSize(rs.reader)
 			if err != nil {
